@@ -416,7 +416,13 @@ fn interpret(c: &mut Commands, ctx: &mut Ctx, act: &SAct)
         SAct::Broadcast(ty, pid) =>
         {
             log(format!("send p{pid}"));
-            if *ty == 0 { c.react().broadcast(Evt::<0>(Payload(*pid))); } else { c.react().broadcast(Evt::<1>(Payload(*pid))); }
+            // (every other time through a reborrowed `ReactCommands`)
+            if *pid % 2 == 0
+            {
+                let mut rc = c.react();
+                if *ty == 0 { rc.reborrow().broadcast(Evt::<0>(Payload(*pid))); } else { rc.reborrow().broadcast(Evt::<1>(Payload(*pid))); }
+            }
+            else if *ty == 0 { c.react().broadcast(Evt::<0>(Payload(*pid))); } else { c.react().broadcast(Evt::<1>(Payload(*pid))); }
         }
         SAct::EntityEvent(r, ty, pid) =>
         {
@@ -447,6 +453,15 @@ fn interpret(c: &mut Commands, ctx: &mut Ctx, act: &SAct)
         SAct::Insert(r, ty, v) =>
         {
             let Some(e) = resolve(*r) else { return };
+            // (odd values: `ReactCommands` obtained from the entity's `EntityCommands`, when the entity exists)
+            if *v % 2 == 1
+            {
+                if let Some(mut ec) = c.get_entity(e)
+                {
+                    if *ty == 0 { ec.react().insert(e, Comp::<0>(*v)); } else { ec.react().insert(e, Comp::<1>(*v)); }
+                    return
+                }
+            }
             if *ty == 0 { c.react().insert(e, Comp::<0>(*v)); } else { c.react().insert(e, Comp::<1>(*v)); }
         }
         SAct::MutNr(r, ty, v) =>
@@ -1055,7 +1070,7 @@ fn run_scenario(path: &str)
         {
             let name = next_system_name();
             let before: Vec<Entity> = app.world().iter_entities().map(|e| e.id()).collect();
-            if k == 0 { app.add_world_reactor(Wr::<0>{ def: *d, name }); } else { app.add_world_reactor(Wr::<1>{ def: *d, name }); }
+            if k == 0 { app.add_world_reactor(Wr::<0>{ def: *d, name }); } else { app.add_world_reactor_with(Wr::<1>{ def: *d, name }, ()); }
             let e = app.world().iter_entities().map(|e| e.id()).find(|e| !before.contains(e)).expect("wr entity");
             new_system_name(e);
             SH.with(|s| { s.borrow_mut().ready.insert(e); });
